@@ -165,6 +165,12 @@ def main(pid, tier, seed, replay_path=None):
                 fails.append(("fault '%s': the answer does not name the missing kind of data (%s)" % (r["label"], first[0]), r))
     rc, viol = 0, []
     os.makedirs(os.path.join(cl.REPLAYS, pid), exist_ok=True)
+    # crafted corrupt-but-decodable directories (witnesses of earlier findings, corpus/l3/*.json): answered and alive
+    import c17corpus
+    cp = c17corpus.run(binary)
+    for (why, cpath) in cp["fails"]:
+        print("VIOLATION property=%s replay=%s\n  %s" % (pid, cpath, why))
+        viol.append(cpath); rc = 1
     if rf["fails"]:
         why, rd = rf["fails"][0]
         path = c17refresh.write_replay(pid, why, rd)
@@ -195,7 +201,7 @@ def main(pid, tier, seed, replay_path=None):
                evaluations=len(results), distinct_nontrivial=len(set(r["label"] for r in results)),
                rule="fault enumeration on cache directories written from generated datasets: every file deleted / emptied; truncation offsets, single-bit flips and zeroed ranges (all offsets and bits of the files <= 400 bytes in the thorough tier, samples otherwise); the cross-file inconsistencies of the property's list; for each: start the real binary%s, one request per endpoint, /updateCache?names=all, the requests again; distinct = distinct (fault kind, file, argument)" % (" (ASan+UBSan build)" if san else ""),
                samples=[dict(fault=r["label"], answers=r["answers"][:4]) for r in results[:3]], fault_kinds=kinds, outcome_classes=outcomes,
-               violations=len(fails) + len(rf["fails"]), exhaustive=False, sanitizers=san,
+               violations=len(fails) + len(rf["fails"]) + len(cp["fails"]), crafted_corpus_cases=cp["cases"], exhaustive=False, sanitizers=san,
                refresh_fault_rule="healthy start-up on a complete generated directory, 9 requests over 3 scenarios (connection sets cached, both cache modes); one fault applied to the directory on disk (every collection file deleted, all per-line files deleted, a per-stop / per-line file deleted; empty / truncated at a sampled offset / one bit flipped / a range zeroed on collection, per-line and per-stop files, the collection rotating with the seed; sampled cross-file inconsistencies); /updateCache?names=all (faults in schedule files: names=schedules first, faults in the scenario file: names=scenarios,schedules first, then names=all), the requests again after every refresh. Oracle: process alive after every step and ended only by our SIGTERM, no sanitizer report; /updateCache answered with the success object; every answer well-formed with a documented data error code and equal (canonical route / map / summary, errorCode, reason) to the answer of a server freshly started on the faulted directory; a deleted collection is named; where the fresh start-up stopped at an unreadable collection (it then reports the first collection it did not get to) the refreshed server, which goes on loading, is instead compared with a second healthy server started on other data and refreshed onto the same files (state after names=all is a function of the files alone)",
                refresh_fault_histories=rf["histories"], refresh_fault_answers=rf["answers"], refresh_fault_updates=rf["updates"],
                refresh_fault_kinds=rf["fault_kinds"], refresh_fault_targets=rf["fault_targets"], refresh_outcome_classes=rf["outcome_classes"],
